@@ -106,6 +106,14 @@ def parsePath (decl : List (List Char × List Char)) (path : List Char) : Except
   | .ok ss => .ok { segments := ss, query := q }
   | .error e => .error e
 
+/-- the segments of a template as HTTP sees them: the text between the slashes after the leading one, EMPTY ones included
+(`/items/` has the segments `items`, `` — it is another path than `/items`); the root `/` has none -/
+def templateSegments (path : List Char) : List (List Char) :=
+  match (splitOnce '?' path).1 with
+  | ['/'] => []
+  | '/' :: r => splitOn '/' r
+  | r => splitOn '/' r
+
 /-- `to_axum_segment` for Mixed: each `{}` of the format replaced, left to right, by `{param}`. -/
 def fillFormat : List Char → List (List Char) → List Char
   | [], _ => []
